@@ -90,14 +90,18 @@ Indent(sc) == Len(sc) - 1
 RetTypes == {<<L("void", 4)>>, <<L("int", 3)>>, <<L("char", 4)>>, <<L("static int", 10)>>, <<L("static void", 11)>>,
              <<L("t_list", 6)>>, <<L("size_t", 6)>>, <<L("unsigned int", 12)>>}
 Param(t, st, w, n) == <<TyItem(t), L(" ", 1)>> \o Stars(st) \o <<Slot("p", w, n)>>
+(* a function-pointer parameter: int (*name)(void *, void *) ; k = number of (unnamed) parameters of the callback *)
+InnerTypes(k) == IF k = 1 THEN L("int", 3) ELSE IF k = 2 THEN L("void *, void *", 14) ELSE L("char *, int, void *", 19)
+FParam(w, n, k) == <<L("int", 3), L(" ", 1), L("(*", 2), Slot("p", w, n), L(")(", 2), InnerTypes(k), L(")", 1)>>
 ParamChoices(n) == {Param(t, st, w, n) : t \in Pick(TypeIdx), st \in Pick(0..2), w \in Pick(NameW)}
 RECURSIVE JoinParams(_, _)
 JoinParams(ps, i) == IF i > Len(ps) THEN <<>>
                      ELSE (IF i = 1 THEN <<>> ELSE <<L(", ", 2)>>) \o ps[i] \o JoinParams(ps, i + 1)
 ParamLists == IF Sim
               THEN {<< L("void", 4) >>}
-                   \cup UNION {{JoinParams([i \in 1..n |-> Param(ts[i], sts[i], ws[i], i)], 1)
-                                  : ts \in Pick([1..n -> TypeIdx]), sts \in Pick([1..n -> 0..2]), ws \in Pick([1..n -> NameW])}
+                   \cup UNION {{JoinParams([i \in 1..n |-> IF fs[i] >= 4 THEN FParam(ws[i], i, fs[i] - 3) ELSE Param(ts[i], sts[i], ws[i], i)], 1)
+                                  : ts \in Pick([1..n -> TypeIdx]), sts \in Pick([1..n -> 0..2]), ws \in Pick([1..n -> NameW]),
+                                    fs \in Pick([1..n -> 0..6])}          \* 4..6: a callback with 1..3 parameters
                               : n \in Pick(1..4)}
               ELSE {<< L("void", 4) >>, Param(2, 1, 3, 1) \o <<L(", ", 2)>> \o Param(1, 0, 1, 2)}
 
